@@ -256,6 +256,15 @@ Definition SITE_SLICE_ORDER : N := 9009.
 Definition SITE_PNL : N := 9010.
 Definition SITE_LOOP_FUEL : N := 9099.
 
+Definition clear_debt (s : st) : st :=
+  let g := s_ghost s in
+  s <| s_ghost := g <| g_lines_ok := g_lines_ok g && g_line_debt g |> <| g_line_debt := false |> |>.
+
+Definition note_observe_lines (s : st) : st :=
+  (* the line table is observed: no line feed may be pending *)
+  let g := s_ghost s in
+  s <| s_ghost := g <| g_lines_ok := g_lines_ok g && negb (g_line_debt g) |> |>.
+
 Definition prep_error (s : st) (k : ErrorKind) : err_info :=
   let lls := match w_lines (s_buf s) with li :: _ => l_start li | [] => 0 end in
   mkErr k (cur_byte s) (cur_char s) (w_nlines (s_buf s)) (cur_char s - lls)
@@ -264,7 +273,7 @@ Definition prep_error (s : st) (k : ErrorKind) : err_info :=
 Definition push_error (s : st) (e : err_info) : st :=
   s <| s_errs := e :: s_errs s |> <| s_nerrs := s_nerrs s + 1 |>.
 
-Definition emit_error (s : st) (k : ErrorKind) : st := push_error s (prep_error s k).
+Definition emit_error (s : st) (k : ErrorKind) : st := push_error (note_observe_lines s) (prep_error s k).
 
 Definition push_mode (s : st) (m : mode) : st :=
   s <| s_modes := m :: s_modes s |> <| s_nmodes := s_nmodes s + 1 |>
@@ -283,15 +292,6 @@ Definition buf_add_line (d : bool) (s : st) (byte char_ : N) : res N :=
     let b := s_buf s in
     Done (w_nlines b)
          (s <| s_buf := b <| w_lines := mkLine byte char_ :: w_lines b |> <| w_nlines := w_nlines b + 1 |> |>).
-
-Definition clear_debt (s : st) : st :=
-  let g := s_ghost s in
-  s <| s_ghost := g <| g_lines_ok := g_lines_ok g && g_line_debt g |> <| g_line_debt := false |> |>.
-
-Definition note_observe_lines (s : st) : st :=
-  (* the line table is observed: no line feed may be pending *)
-  let g := s_ghost s in
-  if g_line_debt g then s <| s_ghost := g <| g_lines_ok := false |> |> else s.
 
 (** line index of the last line, adding one if none exists ("should not be possible") *)
 Definition last_line_or_add (d : bool) (s : st) : res N :=
@@ -577,7 +577,7 @@ Definition exec (d : bool) {A} (o : op A) (s : st) : res A :=
                                  <| g_rollbacks := g_rollbacks g + 1 |> |>)
     | None => Done tt (emit_error s E_InternalErrorMissingCheckpoint)
     end
-  | OEmitError k => Done tt (emit_error (note_observe_lines s) k)
+  | OEmitError k => Done tt (emit_error s k)
   | OPrepError k =>
     let s1 := note_observe_lines s in
     Done tt (s1 <| s_perr := Some (prep_error s k) |>
